@@ -70,7 +70,8 @@ class Event:
             if asyncio.iscoroutinefunction(handler):
                 # Note that unsubscription may be delayed due to asyncio scheduling :)
 
-                async def _run_handler_wrapper():
+                # Bind the loop variables now, the task only runs after the loop has moved on
+                async def _run_handler_wrapper(handler=handler, inner_args=inner_args, kwargs=kwargs):
                     unsubscribe = await handler(args, *inner_args, **kwargs)
                     if unsubscribe:
                         _ = self.unsubscribe(handler, *inner_args, **kwargs)
